@@ -155,6 +155,7 @@ class Engine:
         self.event_index = {}     # (kind, block, si) -> one Ev instance (for evidence)
         self.obligations = set()  # (rule, what, block) evaluated on at least one path
         self.truncated = False
+        self.two_variant = set()  # expressions of type Option / Result (type facts, collected where a discriminant is read)
 
     # ------------------------------------------------------------- driver
     def run(self):
@@ -250,8 +251,19 @@ class Engine:
             if s["k"] == "assign":
                 d = s["dst"]
                 e = self.bi.rvalue(s["rv"], val)
-                if depth(e) > 40:
+                if s["rv"]["k"] == "discr" and not s["rv"]["pl"]["p"] and e[0] == "discr":
+                    lt = self.fn.locals[s["rv"]["pl"]["l"]]["ty"]
+                    if lt.get("adt") in ("core::option::Option", "core::result::Result") and lt.get("peel") == 0:
+                        self.two_variant.add(e[1])
+                e = widen_steps(e)
+                if depth(e) > 150:
                     e = ("unk", "wide%d" % d["l"])
+                # a local integer that is being stepped through constants (cursor / counter initialised with a literal)
+                if not d["p"] and d["l"] in self.bi.dyn and is_const(e) and s["rv"]["k"] == "use" and s["rv"]["op"].get("k") in ("copy", "move"):
+                    src = val.get(s["rv"]["op"]["pl"]["l"])
+                    if src is not None and src[0] == "bin" and src[1] in ("AddWithOverflow", "SubWithOverflow", "Add", "Sub") and is_const(src[2]) and is_const(src[3]) \
+                            and self._self_step(blk, si, d["l"]):
+                        e = ("stepped", src[2])
                 if not d["p"]:
                     if d["l"] in self.bi.dyn:
                         val[d["l"]] = e
@@ -319,6 +331,30 @@ class Engine:
                 ss = st.strong(g[1])
                 return ("Z" in ss) if c[1][1].startswith("Sub") else ("U" in ss)
         return True
+
+    def _self_step(self, blk, si, l):
+        """Is statement `si` the write-back of `l ± const` computed just before in the same block?"""
+        s = blk["stmts"][si]
+        op = s["rv"]["op"]
+        if op.get("k") not in ("copy", "move"):
+            return False
+        src = op["pl"]["l"]
+        for t in reversed(blk["stmts"][:si]):
+            if t["k"] == "assign" and not t["dst"]["p"] and t["dst"]["l"] == src and t["rv"]["k"] == "bin":
+                for o in (t["rv"]["a"], t["rv"]["b"]):
+                    if o.get("k") in ("copy", "move") and not o["pl"]["p"] and o["pl"]["l"] == l:
+                        return True
+                return False
+        # the arithmetic may sit in the predecessor block (overflow check in between)
+        for b2, blk2 in enumerate(self.fn.blocks):
+            t2 = blk2["term"]
+            if t2["k"] == "assert" and t2.get("target") is not None and self.fn.blocks[t2["target"]] is blk:
+                for t in reversed(blk2["stmts"]):
+                    if t["k"] == "assign" and not t["dst"]["p"] and t["dst"]["l"] == src and t["rv"]["k"] == "bin":
+                        for o in (t["rv"]["a"], t["rv"]["b"]):
+                            if o.get("k") in ("copy", "move") and not o["pl"]["p"] and o["pl"]["l"] == l:
+                                return True
+        return False
 
     # ----- events ---------------------------------------------------------
     def emit(self, ev, st):
@@ -463,7 +499,7 @@ class Engine:
             inner = d[1]
             known = st.variant(inner)
             # Option-valued results of next()/pop(): `otherwise` of a one-armed switch is the other variant
-            if v == "otherwise" and inner[0] == "call" and (inner[2] == "core::iter::Iterator::next" or inner[2].endswith("::pop")):
+            if v == "otherwise" and (inner in self.two_variant or (inner[0] == "call" and (inner[2] == "core::iter::Iterator::next" or inner[2].endswith("::pop")))):
                 if listed == ["1"]:
                     v = "0"
                 elif listed == ["0"]:
@@ -653,6 +689,12 @@ class Engine:
                 return self.ptr_rel(st, x, y, same)
             return st
         if c[0] == "call":
+            # the result of one call execution is one value: later tests of it must agree with earlier ones
+            if c[2].startswith("hashbrown::") or c[2] in ("core::ptr::eq", "core::iter::Iterator::any", "core::iter::Iterator::all"):
+                if ("cv", c, not truth) in st.flags:
+                    return None
+                if ("cv", c, truth) not in st.flags:
+                    st = st.replace(flags=st.flags | {("cv", c, truth)})
             d = c[2]
             if d == "core::ptr::eq" and len(c[3]) == 2:
                 return self.ptr_rel(st, c[3][0], c[3][1], truth)
@@ -742,6 +784,12 @@ class Engine:
                     st = x
         st = self.kill_site(st, b)
         res = self.bi.call_value(b, t, val)
+        for r in self.rules:
+            h = getattr(r, "on_call_result", None)
+            if h:
+                x = h(self, st, b, t, res)
+                if x is not None:
+                    res = x
         evs, diverges = self.call_events(b, t, callee, args, res, st)
         pre = st
         for ev in evs:
@@ -753,7 +801,7 @@ class Engine:
             if not d["p"]:
                 if d["l"] in self.bi.dyn:
                     v = dict(nst.val)
-                    v[d["l"]] = res if depth(res) <= 40 else ("unk", "wide%d" % d["l"])
+                    v[d["l"]] = res if depth(res) <= 150 else ("unk", "wide%d" % d["l"])
                     nst = nst.replace(val=fz(v))
             else:
                 pe = self.bi.place(d, dict(nst.val))
@@ -832,7 +880,8 @@ class Engine:
             return evs, False
         # ---- memory
         if d in ("core::mem::replace", "core::mem::take", "core::mem::swap", "core::ptr::read", "core::ptr::replace",
-                 "core::ptr::read_unaligned", "core::ptr::read_volatile"):
+                 "core::ptr::read_unaligned", "core::ptr::read_volatile", "core::mem::MaybeUninit::<T>::assume_init_read",
+                 "core::ptr::const_ptr::<impl *const T>::read", "core::ptr::mut_ptr::<impl *mut T>::read", "core::ptr::mut_ptr::<impl *mut T>::replace"):
             bp = box_part(args[0]) if args else None
             if bp is not None:
                 if bp[1] in ("value", "links"):
@@ -905,6 +954,11 @@ class Engine:
             A("alloc", what=d, res=res)
             A("extcall", args=args, res=res)
             return evs, False
+        # ---- Extend::extend on a Vec is a series of pushes
+        if d == "core::iter::Extend::extend" and (callee.get("self_ty") or {}).get("adt") == "alloc::vec::Vec":
+            A("vec", op="extend", recv=args[0] if args else None, args=args, res=res)
+            A("alloc", what=d)
+            return evs, False
         # ---- iterators
         if d.startswith("core::iter::"):
             m = d.rsplit("::", 1)[1]
@@ -976,6 +1030,31 @@ def alloc_root(e):
     if len(_alloc_cache) < 200000:
         _alloc_cache[e] = r
     return r
+
+
+def arith_chain(e):
+    """Length of a chain x ± c ± c ± c … (a loop counter being stepped): the widening trigger."""
+    n = 0
+    while isinstance(e, tuple) and e[0] == "bin" and e[1] in ("Add", "Sub", "AddUnchecked", "SubUnchecked") and is_const(e[3]) and n < 64:
+        e = e[2]
+        n += 1
+    return n
+
+
+def widen_steps(e):
+    """A loop counter stepped several times (x - 1 - 1 - 1 ...) is abstracted to ('stepped', x): finite, and
+    the starting value stays visible to the rules."""
+    n = arith_chain(e)
+    if n == 0:
+        return e
+    base = e
+    for _ in range(n):
+        base = base[2]
+    if base[0] == "stepped":
+        return base
+    if n > 3:
+        return ("stepped", base)
+    return e
 
 
 def counter_read(e):
